@@ -183,6 +183,8 @@ def gen(t, tier):
           'fault': None, 'bufsize': t.pick([4096, 8192])}
     if b['type'] in ('file', 'compact') and t.chance(0.3):
         sc['fault'] = {'errno': t.pick(['EIO', 'ENOSPC', 'EACCES', 'short'])}
+        if sc['fault']['errno'] in ('EIO', 'ENOSPC') and t.chance(0.5):
+            sc['fault']['sticky'] = True
     return sc
 
 
@@ -256,9 +258,16 @@ def run(sc, tape):
                 b2['grid'] = tile_grid(3857, origin='nw')
             else:
                 b2 = b
-            runner = M.Runner(b, lambda: C.make_cache(b2, cdir), sc['pool'], sc['dimsets'])
+            runner = M.Runner(b, lambda: C.make_cache(b2, cdir), sc["pool"], sc["dimsets"])
+            runner.clock = w.clock
 
             def hook(op, key, proc):
+                if state['fired'] and fault.get('sticky') and runner.in_mutation and runner.call_seq == state.get('call') \
+                        and op == 'write':
+                    # the disk stays full (the device stays broken) until the failing call has returned: the flush that
+                    # close() retries fails as well
+                    faults['io_error_repeated'] = faults.get('io_error_repeated', 0) + 1
+                    raise _injected(fault['errno'], key)
                 if not runner.in_mutation or op not in ('write', 'rename', 'open', 'mkdir', 'unlink', 'link',
                                                         'symlink', 'ftruncate'):
                     return None
@@ -266,6 +275,7 @@ def run(sc, tape):
                 state['n'] += 1
                 if fire_at is not None and i == fire_at and not state['fired']:
                     state['fired'] = True
+                    state['call'] = runner.call_seq
                     runner.fault_in_call = True
                     if fault['errno'] == 'short':
                         if op == 'write':
